@@ -228,6 +228,13 @@ def main(ctx: Ctx) -> int:
                           {"trace": tr, "clauses": rj["clauses"]})
     if cov.get("traces_validated_against_impl", 0) != len(traces):
         raise MachineryError("a scenario family has no trace configuration")
+    # the command-line path: two projects rendered in one process (no state is cleared in between)
+    import project_life
+    diff = project_life.cli_sequence(ctx)
+    cov["cli_projects_rendered_in_one_process"] = 2
+    if diff:
+        ctx.violation("C17|CliRenderIndependentOfEarlierRender|replacement", "a project with an upper-case element list and NO replacement table renders differently after "
+                      f"a project WITH a replacement table was rendered in the same process: {diff[:6]}", {"differing_files": diff})
     renders = [e for t in traces for e in t["ev"] if e["op"] == "Render"]
     cov["renders_compared"] = len(renders)
     cov["renders_identical_to_fresh"] = sum(1 for e in renders if e.get("same"))
